@@ -172,6 +172,7 @@ def evaluate(sub, case, rec=None, record=True):
     defaults.EXPLICIT = defaults.explicit_flag_for(case)
     defaults.NPINT = defaults.npint_flag_for(case)
     defaults.POSITIONAL = defaults.positional_flag_for(case)
+    defaults.SEQFORM = defaults.seqform_for(case)
     try:
         sub.body(case, ctx)
     except Skip as s:
